@@ -122,6 +122,34 @@ pub fn c07(j: &mut Judge, v: &StepView) {
         _ => return,
     };
     let feat = format!("{}:{}", v.req.kind(), first_tag(&v.exp.failing));
+    // an id whose order has, by the reference model, left the book is free again - even if a
+    // spent entry is still stored under it
+    let zombie = if is_ask { j.tracker.zombie_asks.contains(&id) } else { j.tracker.zombie_bids.contains(&id) };
+    if zombie && !v.out.accepted() {
+        let mut cleaned = v.before.clone();
+        if is_ask {
+            cleaned.asks.remove(&id);
+        } else {
+            cleaned.bids.remove(&id);
+        }
+        let exp2 = crate::model::expect(
+            &crate::model::Ctx {
+                book: &cleaned,
+                tables: &v.world_before.tables,
+                sender: v.sender,
+                funds: v.funds,
+            },
+            v.req,
+        );
+        if exp2.verdict == Verdict::Accept {
+            j.violate(
+                Prop::C07,
+                "valid-order-refused",
+                &format!("{}:id-of-a-closed-order", v.req.kind()),
+                format!("the order formerly under id {} has completely left the book, yet a well-formed new order under that id is refused: {}", id, v.out.why),
+            );
+        }
+    }
     match &v.exp.verdict {
         Verdict::Accept => {
             if !v.out.accepted() {
